@@ -454,3 +454,153 @@ def calcq_tie(ctx, rng, out, n):
                             inp, 0.0, sym, confirmed=False)
                 continue
         out["nontrivial"].add(("calcq", c["src"], len(c["w"]), c["layout"]))
+
+
+# --------------------------------------------------------------------------
+# (4) parameter scopes given by a clade specification (tip_names + outgroup_name [+ clade / stem]) or an edge list
+# --------------------------------------------------------------------------
+_SPECIAL = {"mprobs", "length", "bprobs", "rate", "psubs", "dpsubs"}
+
+
+def is_scope_rule(r):
+    return "tip_names" in r or "edges" in r
+
+
+def scope_edges(tree, r):
+    """the edge names a rule applies to, computed on the UNDIRECTED tree (independent of cogent3 and of the rooting): with the
+    outgroup tip z as the point of view, the join node is where the paths z->tip1 and z->tip2 part; `stem` is the edge from the
+    join node towards z, `clade` is every edge beyond the join node as seen from z"""
+    if "edges" in r:
+        return list(r["edges"])
+    t1, t2 = r["tip_names"]
+    z = r["outgroup_name"]
+    stem = bool(r.get("stem")) if r.get("stem") is not None else False
+    clade = r.get("clade") if r.get("clade") is not None else (not stem)
+    adj = {}
+    for p, c in _edges(tree):
+        adj.setdefault(p["name"], []).append((c["name"], c["name"]))
+        adj.setdefault(c["name"], []).append((p["name"], c["name"]))
+    up = {z: None}
+    order = [z]
+    for u in order:
+        for v, e in adj[u]:
+            if v not in up:
+                up[v] = (u, e)
+                order.append(v)
+
+    def chain(u):
+        out = [u]
+        while up[out[-1]] is not None:
+            out.append(up[out[-1]][0])
+        return out
+
+    c2 = set(chain(t2))
+    join = next(u for u in chain(t1) if u in c2)
+    names = []
+    if stem:
+        names.append(up[join][1])
+    if clade:
+        names += [up[u][1] for u in order if u != join and join in chain(u)]
+    return names
+
+
+def add_scope_rules(base, rng):
+    """append 1-2 rules that scope a rate parameter by a clade specification relative to an outgroup tip (clade / stem / both,
+    flags explicit or left to their defaults) or by an explicit list of edges; the tips are drawn so that all three lie anywhere
+    in the tree (the outgroup inside or outside the clade as the tree happens to be rooted)"""
+    tips = U.tree_tips(base["tree"])
+    params = sorted({r["par_name"] for r in base["rules"] if r["par_name"] not in _SPECIAL and not r["par_name"].endswith("_shape")})
+    if len(tips) < 4 or not params:
+        return False
+    edges = U.tree_edges(base["tree"])
+    for _ in range(rng.choice([1, 1, 2])):
+        p = rng.choice(params)
+        v = round(math.exp(rng.uniform(math.log(0.08), math.log(8.0))), 6)
+        if rng.random() < 0.2:
+            base["rules"].append(dict(par_name=p, edges=rng.sample(edges, rng.randint(2, max(2, len(edges) - 1))), init=v))
+            continue
+        t1, t2, z = rng.sample(tips, 3)
+        r = dict(par_name=p, tip_names=[t1, t2], outgroup_name=z, init=v)
+        mode = rng.choice(["default", "clade", "stem", "both", "stem-only-explicit"])
+        if mode == "clade":
+            r["clade"] = True
+        elif mode == "stem":
+            r["stem"] = True
+        elif mode == "both":
+            r["clade"], r["stem"] = True, True
+        elif mode == "stem-only-explicit":
+            r["clade"], r["stem"] = False, True
+        base["rules"].append(r)
+    base["scope_rules"] = True
+    return True
+
+
+def resolved(spec):
+    """the same problem with every clade / edge-list scoped rule replaced by per-edge rules for the independently computed edge set"""
+    if not any(is_scope_rule(r) for r in spec["rules"]):
+        return spec
+    s = copy.deepcopy(spec)
+    rules = []
+    for r in spec["rules"]:
+        if is_scope_rule(r):
+            rest = {k: v for k, v in r.items() if k not in ("tip_names", "outgroup_name", "clade", "stem", "edges")}
+            rules += [dict(rest, edge=e) for e in scope_edges(spec["tree"], r)]
+        else:
+            rules.append(r)
+    s["rules"] = rules
+    s["resolved_scopes"] = True
+    return s
+
+
+def rename_rules(rules, ren):
+    out = []
+    for r in rules:
+        r = dict(r)
+        if "edge" in r:
+            r["edge"] = ren.get(r["edge"], r["edge"])
+        if "edges" in r:
+            r["edges"] = [ren.get(e, e) for e in r["edges"]]
+        if "tip_names" in r:
+            r["tip_names"] = [ren.get(e, e) for e in r["tip_names"]]
+        if r.get("outgroup_name") is not None:
+            r["outgroup_name"] = ren.get(r["outgroup_name"], r["outgroup_name"])
+        out.append(r)
+    return out
+
+
+def scope_kind(spec):
+    ks = set()
+    for r in spec["rules"]:
+        if "edges" in r:
+            ks.add("edge-list")
+        elif "tip_names" in r:
+            stem = bool(r.get("stem"))
+            clade = r.get("clade") if r.get("clade") is not None else (not stem)
+            ks.add("+".join(x for x, on in (("clade", clade), ("stem", stem)) if on))
+    return ",".join(sorted(ks))
+
+
+def outgroup_layout(tree, r):
+    """where the outgroup lies relative to LCA(tip1, tip2) in the tree AS ROOTED: 'lca-is-root', 'outside-lca-subtree' or
+    'inside-lca-subtree' (the clade then 'traverses the root' of the stored tree)"""
+    par = {c["name"]: p["name"] for p, c in _edges(tree)}
+
+    def anc(u):
+        out = [u]
+        while out[-1] in par:
+            out.append(par[out[-1]])
+        return out
+
+    a2 = set(anc(r["tip_names"][1]))
+    lca = next(u for u in anc(r["tip_names"][0]) if u in a2)
+    if lca == "root":
+        return "lca-is-root"
+    return "inside-lca-subtree" if lca in anc(r["outgroup_name"]) else "outside-lca-subtree"
+
+
+def t_scope_explicit(spec, rng):
+    if not any(is_scope_rule(r) for r in spec["rules"]):
+        return None
+    s = resolved(spec)
+    s["how"] = scope_kind(spec)
+    return s, 1
